@@ -61,6 +61,8 @@ type DBM struct {
 	idx map[string]int
 	// edges: u -> v with weight w means  v - u <= w
 	edges []dbEdge
+	// ne: disequalities a != b, used to tighten a <= b to a < b
+	ne [][2]Lin
 }
 
 type dbEdge struct {
@@ -76,6 +78,10 @@ func (d *DBM) node(t string) int {
 	}
 	i := len(d.idx)
 	d.idx[t] = i
+	if strings.HasPrefix(t, "len(") {
+		// lengths are non-negative: 0 - len <= 0
+		d.edges = append(d.edges, dbEdge{u: i, v: 0, w: 0})
+	}
 	return i
 }
 
@@ -138,11 +144,54 @@ func (d *DBM) AddAtom(a Atom) {
 	case "==":
 		d.AddLE(l, r, false)
 		d.AddLE(r, l, false)
+	case "!=":
+		d.node(l.Term)
+		d.node(r.Term)
+		d.ne = append(d.ne, [2]Lin{l, r})
 	}
 }
 
-// Feasible reports whether the constraints have an integer solution (no negative cycle).
+// Feasible reports whether the constraints have an integer solution: no negative cycle, after each disequality a != b
+// whose one side a <= b is already forced has been tightened to a < b (sound: it only removes the excluded point;
+// two-sided-open disequalities are ignored, which keeps more paths feasible, never fewer).
 func (d *DBM) Feasible() bool {
+	if len(d.ne) == 0 {
+		return d.feasible()
+	}
+	c := &DBM{idx: map[string]int{}, edges: append([]dbEdge(nil), d.edges...)}
+	for k, v := range d.idx {
+		c.idx[k] = v
+	}
+	if !c.feasible() {
+		return false
+	}
+	for round := 0; round < len(d.ne)+1; round++ {
+		changed := false
+		for _, ne := range d.ne {
+			a, b := ne[0], ne[1]
+			le, ge := c.Entails(a, b, false), c.Entails(b, a, false)
+			switch {
+			case le && ge:
+				return false
+			case le && !c.Entails(a, b, true):
+				c.AddLE(a, b, true)
+				changed = true
+			case ge && !c.Entails(b, a, true):
+				c.AddLE(b, a, true)
+				changed = true
+			}
+		}
+		if !changed {
+			break
+		}
+		if !c.feasible() {
+			return false
+		}
+	}
+	return true
+}
+
+func (d *DBM) feasible() bool {
 	n := len(d.idx)
 	dist := make([]int64, n)
 	for i := 0; i < n; i++ {
@@ -173,7 +222,7 @@ func (d *DBM) Entails(a, b Lin, strict bool) bool {
 	}
 	// negation of a <= b is b < a ; of a < b is b <= a
 	c.AddLE(b, a, !strict)
-	return !c.Feasible()
+	return !c.feasible()
 }
 
 // PathFeasible checks the arithmetic atoms of a path together with extra assumptions.
